@@ -196,20 +196,10 @@ harness(void) {
     if (nneeded > 0)
       VP_ASSERT(vs.next_file_number > maxlog, "C03.b file numbers allocated from now on are above every replayed log");
     VP_ASSERT(vs.next_file_number >= g_rec_next_file, "file number counter never lowered");
-    {
-      int skipped = 0;
-      for (i = 0; i < VP_NAMES; i++)
-        if (i < g_nreplayed && g_open_failed[i])
-          skipped = 1;
-#if VP_STRICT_LOGOPEN
-      VP_ASSERT(!skipped, "KF:F3-log-open-failure-ignored a log that cannot be opened is not silently skipped (its records would be lost)");
-#endif
-      if (skipped) {
-        VP_ASSERT(!paranoid, "paranoid: failure to open a log fails recovery");
-        VP_WITNESS("log-open-failed-ignored");
-      }
-    }
-    VP_ASSERT(g_missed == 0, "C03.b every record of >= 12 bytes of every log that was opened was replayed");
+    for (i = 0; i < VP_NAMES; i++)
+      if (i < g_nreplayed)
+        VP_ASSERT(!g_open_failed[i] && g_replayed_ok[i], "C12 a log that could not be opened is never treated as recovered");
+    VP_ASSERT(g_missed == 0, "C03.b every record of >= 12 bytes of every needed log was replayed");
     VP_ASSERT(g_lost_mem == 0, "C03.b no replayed record dropped: memtables written out or kept as db->mem");
     VP_ASSERT(vs.last_sequence >= g_rec_last_seq, "last_sequence never lowered");
     if (g_any_inserted)
@@ -252,5 +242,11 @@ harness(void) {
     VP_ASSERT(g_nreplayed >= 1 && g_nmarked == g_nreplayed - 1, "C12 recovery stops at the first log whose replay fails");
     VP_ASSERT(db->mem == NULL && db->log == NULL, "failed recovery reuses no log");
     VP_WITNESS("replay-failed");
+    for (i = 0; i < VP_NAMES; i++) {
+      if (i == g_nreplayed - 1 && g_open_failed[i]) {
+        VP_ASSERT(rc == g_logopen_rc, "C12 failure to open a log is the returned status");
+        VP_WITNESS("log-open-failed-error-returned");
+      }
+    }
   }
 }
